@@ -837,7 +837,9 @@ def run_property(pid: str, tier: str, jobs: int, only: str | None, keep: bool, r
     spec = props.PROPS[pid]
     t_start = time.time()
     known = load_known()
-    hs = [h for h in spec["harnesses"] if (tier == "thorough" or h.tier == "quick")]
+    # tier "off": written, but beyond reach of the engine (kept for --harness experiments only;
+    # listed in the evidence under outside_claim)
+    hs = [h for h in spec["harnesses"] if ((tier == "thorough" and h.tier != "off") or h.tier == "quick" or (only and h.tier == "off"))]
     if only:
         hs = [h for h in hs if re.search(only, h.name)]
     kind = spec["kind"]
